@@ -362,6 +362,8 @@ def run(chk):
     if quick:   # quick tier: only the seeded variant as vacuity guard of the nested model
         expect = [e for e in expect if e[0] not in ("MCNestedFirstErr.cfg", "MCNestedNoAwait.cfg")]
 
+    fp = ["-fp", "7"]   # fixed fingerprint polynomial: node names and therefore the walks depend on VERIF_SEED only
+
     def design_job(job):
         cfg, ns, nr = job
         w = os.path.join(chk.tmp, "tlc-" + cfg)
@@ -371,10 +373,10 @@ def run(chk):
             return cfg, V.tlc(w, "MCLifecycle", cfg=cfg, workers=4, timeout=1500, extra=["-coverage", "1"]), None
         if cfg == "MCLifecycleGen.cfg":
             dot = os.path.join(w, "gen.dot")
-            return cfg, V.tlc(w, "MCLifecycleGen", cfg=cfg, workers=1, timeout=900, deadlock=False, dump=dot), dot
+            return cfg, V.tlc(w, "MCLifecycleGen", cfg=cfg, workers=1, timeout=900, deadlock=False, dump=dot, extra=fp), dot
         if cfg == "MCNestedGen.cfg":
             dot = os.path.join(w, "gen.dot")
-            return cfg, V.tlc(w, "MCNestedGen", cfg=cfg, workers=1, timeout=900, deadlock=False, dump=dot), dot
+            return cfg, V.tlc(w, "MCNestedGen", cfg=cfg, workers=1, timeout=900, deadlock=False, dump=dot, extra=fp), dot
         if cfg in ("MCNested.cfg", "MCNestedLive.cfg"):
             return cfg, V.tlc(w, "MCNested", cfg=cfg, workers=4, timeout=1500, extra=["-coverage", "1"]), None
         if cfg.startswith("MCNested"):
